@@ -18,7 +18,8 @@ FREQ = np.array([191.4e12, 192.2e12, 193.0e12, 193.8e12, 194.6e12, 195.9e12])
 LUMPED = [{'position': 12.0, 'loss': 0.5}, {'position': 33.3, 'loss': 0.25}]
 
 
-def run(cls, length_km, raman, pch, lumped=LUMPED, pumps=None, loss=0.21, att_in=1.0, con_in=0.3, con_out=0.4):
+def run(cls, length_km, raman, pch, lumped=LUMPED, pumps=None, loss=0.21, att_in=1.0, con_in=0.3, con_out=0.4, freq=None):
+    freq = FREQ if freq is None else freq
     SimParams.set_params({'raman_params': raman})
     kw = dict(uid='span', type_variety='SSMF',
               params={'length': length_km, 'length_units': 'km', 'loss_coef': loss, 'att_in': att_in, 'con_in': con_in,
@@ -28,7 +29,7 @@ def run(cls, length_km, raman, pch, lumped=LUMPED, pumps=None, loss=0.21, att_in
         kw['operational'] = {'temperature': 283, 'raman_pumps': pumps or []}
     fiber = cls(**kw)
     fiber.ref_pch_in_dbm = -60.0
-    si = create_arbitrary_spectral_information(frequency=FREQ, pch=pch, baud_rate=32e9, slot_width=50e9, tx_osnr=40.0, tx_power=pch)
+    si = create_arbitrary_spectral_information(frequency=freq, pch=pch, baud_rate=32e9, slot_width=50e9, tx_osnr=40.0, tx_power=pch)
     pin = si.pch_dbm
     si = fiber(si)
     return pin - si.pch_dbm
@@ -86,6 +87,22 @@ try:
         # the Raman transfer goes from high to low frequencies: the lowest channel loses least
         if not ref[0] <= ref[-1] + 1e-6:
             wit.append({'key': f'srs-tilt-direction:{L}km:{pch}W', 'problems': [f'loss per channel {np.round(ref, 3).tolist()} dB']})
+    # 2b. a strong Raman tilt (25 channels at +15 dBm over 4.8 THz, about 10 dB of tilt): every further order of the perturbative
+    # method comes closer to the numerical solution, and order 4 agrees with it
+    cases += 1
+    wide = np.linspace(191.4e12, 196.2e12, 25)
+    ref = run(Fiber, 80.0, dict(flag=True, method='numerical', solver_spatial_resolution=5, result_spatial_resolution=10e3), 10 ** 1.5 * 1e-3,
+              lumped=[], freq=wide)
+    errs = {}
+    for o in (1, 2, 3, 4):
+        got = run(Fiber, 80.0, dict(flag=True, method='perturbative', order=o, result_spatial_resolution=10e3, solver_spatial_resolution=50),
+                  10 ** 1.5 * 1e-3, lumped=[], freq=wide)
+        errs[o] = float(np.max(np.abs(got - ref)))
+    if a.tier == 'debug':
+        print(errs)
+    if errs[4] > 0.05 or not (errs[4] <= errs[3] + 5e-3 and errs[3] <= errs[2] + 5e-3 and errs[2] <= errs[1] + 5e-3):
+        wit.append({'key': 'strong-tilt:orders-do-not-converge-to-the-numerical-solution',
+                    'problems': [f'max |perturbative - numerical| per order: { {o: round(e, 4) for o, e in errs.items()} } dB (tilt {float(ref.max() - ref.min()):.2f} dB)']})
     # 3. counter-propagating pumps only add gain, channel by channel
     for L, ppump in itertools.product([60.0, 80.0, 100.0], [0.1, 0.25]):
         cases += 1
@@ -104,5 +121,5 @@ finally:
 finish('Raman solver: low-power limit = loss budget, methods agree, lumped losses once, counter-propagating pumps only add gain', 'bounded',
        'gnpy.core.science_utils.RamanSolver.calculate_stimulated_raman_scattering (+ unidirectional solvers) through Fiber / RamanFiber.propagate',
        f'span lengths {lengths} km (+ a per-frequency loss table on 50 / 83.7 km) x perturbative orders 1-3 x three solver/result steps + numerical (20 m step); 6 channels; powers 1 nW, 1 mW, '
-       '5 mW per channel; pumps 0.1 / 0.25 W at 201 and 205 THz; tolerances 1e-4 dB (perturbative limit), 0.02 dB (Euler), 0.05 dB (agreement)',
+       '5 mW per channel; 25 channels at +15 dBm for the convergence of orders 1-4; pumps 0.1 / 0.25 W at 201 and 205 THz; tolerances 1e-4 dB (perturbative limit), 0.02 dB (Euler), 0.05 dB (agreement)',
        cases, wit, t0=t0)
